@@ -72,7 +72,7 @@ extern const int vm_nkinds;
 int vm_kind_index (const char *name);
 /* leaf: 0 = ordinary leaf body (for fault injection), >0 = genuine error site number */
 extern const char *vm_leaf_names[];
-extern const int vm_nleaves;
+extern int vm_nleaves;
 int vm_shape_possible (const int *kinds, int depth);
 int vm_shape_text (const int *kinds, int depth, int leaf, char *buf, size_t len);
 void vm_shape_name (const int *kinds, int depth, char *buf, size_t len);
